@@ -107,6 +107,9 @@ def run(cfg, budget=400, **runkw):
     np.random.seed(c["seed"])
     with attach.Hooks() as hk:
         attach.iteration_budget(hk, budget)
+        if c.get("pin_limit"):
+            # injected decision: one iteration (possibly the last) is decided at a temperature inside (1 - 2e-4, 1)
+            attach.pin_limit(hk, c["pin_limit"])
         s, t, like, pt = execute(c, **runkw)
     return s, t, like, pt
 
